@@ -126,6 +126,7 @@ def normalize(case):
     form Dynamics.tla reads: sdefs (pre, termWhen, termSimWhen, termAfter, records, monitors,
     hascompose, compose) and top."""
     case.setdefault("impl", 0)
+    case.setdefault("invimpl", 0)
     if "sdefs" not in case:
         case["sdefs"] = [{
             "pre": [], "termWhen": case["termWhen"], "termSimWhen": case["termSimWhen"],
